@@ -2,6 +2,7 @@ package harness
 
 import (
 	"fmt"
+	"strconv"
 	"strings"
 	"testing"
 
@@ -10,6 +11,7 @@ import (
 	"github.com/opsidian/parsley/parser"
 	"github.com/opsidian/parsley/parsley"
 	"github.com/opsidian/parsley/text"
+	"github.com/opsidian/parsley/text/terminal"
 	"pgregory.net/rapid"
 )
 
@@ -28,10 +30,59 @@ func allNamed(g *Grammar) bool {
 	return true
 }
 
+// runeFailText: what terminal.Rune(r) says it was expecting when it does not match (at the end of
+// an empty input).
+func runeFailText(r rune) (msg string) {
+	defer func() {
+		if p := recover(); p != nil {
+			msg = fmt.Sprintf("<panic: %v>", p)
+		}
+	}()
+	f := text.NewFile("p", []byte{})
+	ctx := parsley.NewContext(parsley.NewFileSet(f), text.NewReader(f))
+	n, _, err := terminal.Rune(r).Parse(ctx, data.EmptyIntMap, f.Pos(0))
+	if n != nil || err == nil {
+		return "<no error>"
+	}
+	return err.Error()
+}
+
+// runeTemplate: how the library words the expectation of the terminal 'x', split around the
+// quoted rune - when (and only when) it quotes it the way strconv.Quote does. The expectation of
+// every other rune must then be worded the same way around its own quoted form: an expectation
+// names what was expected, in one line of text (no raw quote, backslash or control character
+// that a reader could not tell from the message's own punctuation).
+var runeTemplate = func() (t struct {
+	pre, suf string
+	ok       bool
+}) {
+	msg, q := runeFailText('x'), strconv.Quote("x")
+	if i := strings.Index(msg, q); i >= 0 {
+		t.pre, t.suf, t.ok = msg[:i], msg[i+len(q):], true
+	}
+	return
+}()
+
 func checkC06(ci interface{}, st *Stats) error {
 	c := ci.(*GCase)
 	g, in := c.G, c.In
 	g.number()
+	if runeTemplate.ok {
+		seen := map[byte]bool{}
+		for _, e := range g.exprs() {
+			if e.K != KTerm || seen[e.ch()] {
+				continue
+			}
+			seen[e.ch()] = true
+			want := runeTemplate.pre + strconv.Quote(string(rune(e.ch()))) + runeTemplate.suf
+			if got := runeFailText(rune(e.ch())); got != want {
+				return fmt.Errorf("the expectation of the terminal %q reads %q; worded like the one of 'x' (%q) it reads %q", rune(e.ch()), got, runeFailText('x'), want)
+			}
+			if c := e.ch(); c == '"' || c == '\\' || c < 0x20 || c == 0x7f {
+				st.Class("terminal whose expectation needs quoting (quote, backslash, control character)")
+			}
+		}
+	}
 	for i, ok := range loudRules(g) {
 		if !ok {
 			return Discard{fmt.Sprintf("rule %d is not loud (can fail without any terminal attempt)", i)}
@@ -263,6 +314,9 @@ func init() {
 				o.Alphabet = "a%\n" // an expectation that contains a formatting verb character
 			case 2:
 				o.Alphabet = "a\f\n" // a form feed is a byte like any other for line and column
+			case 3:
+				// terminals whose expectation text needs quoting
+				o.Alphabet = rapid.SampledFrom([]string{"a\"\n", "a\\\n", "a\x01\n", "a\x7f\n", "a\t\n"}).Draw(t, "quotedAlphabet")
 			}
 			if rapid.IntRange(0, 3).Draw(t, "extramemo") == 0 {
 				o.ExtraMemo = 4
